@@ -157,7 +157,7 @@ def gen_ops(rng, sc, length, kinds):
             mode = rng.choice(["whole", "target", "deps"])
             T = sorted(rng.sample(range(n), rng.randint(1, min(2, n))))
             ops.append(dict(op="cache", inst=inst, mode=mode, T=T, args=rng.choice([(1,), (2, 3), (5, 6)]),
-                            restart=rng.choice(["same", "whole"])))
+                            restart=rng.choice(["same", "whole"]), omit_default=rng.random() < 0.5))
     return ops
 
 
@@ -308,7 +308,10 @@ def run_history(sc, ops):
                     kw2 = dict(target_nodes=kw2["cache_deps_of"])
                 rec2 = dict(op=dict(op="restart", inst=inst, sel=sel2, cached=cached, args=op["args"], mode=mode,
                                     restart=op["restart"]))
-                rec2["out"] = attempt(lambda: d.executor(from_cache=path, **kw2)(*op["args"]))
+                # a defaulted argument that the caching run supplied is in the file: the restart may omit it
+                rargs = op["args"][:1] if (len(op["args"]) == 2 and op.get("omit_default")) else op["args"]
+                rec2["op"]["restart_args"] = list(rargs)
+                rec2["out"] = attempt(lambda: d.executor(from_cache=path, **kw2)(*rargs))
                 rec2["entered"], rec2["dups"] = counters_delta(before2, tag, n)
                 rec2["first_value"] = rec["out"][1]
                 rec2["line"] = len(lines); lines.append("O %d seeded %d %s %d %s %d %s" % (inst, len(sel2), " ".join(map(str, sel2)), len(cached),
